@@ -148,12 +148,12 @@ Section Reader.
                            pfw := aset N.eqb mwd src_path (pfw r); mvf := mvf r; calls := calls r |} in
               ((if c_recursive C then rekey_loop (wfp r') msrc src_path r' else r'), k, ev')
             | None =>
-              if c_fix_movein C && c_recursive C && is_directory m
+              if c_fix_movein C && c_recursive C && is_directory m && fisdir src_path t
               then let '(r', k') := add_dirs r k t (src_path :: walk_dirs t src_path) in (r', k', ev')
               else (r, k, ev')
             end
           | None =>
-            if c_fix_movein C && c_recursive C && is_directory m
+            if c_fix_movein C && c_recursive C && is_directory m && fisdir src_path t
             then let '(r', k') := add_dirs r k t (src_path :: walk_dirs t src_path) in (r', k', ev')
             else (r, k, ev')
           end
